@@ -157,6 +157,124 @@ struct PairSpec {
     sys: System,
 }
 
+/// Single-server sessions in which the k-th file-system-mutating libc call of the server FAILS (every k): the
+/// replies received and the final tree must still be those of a one-at-a-time execution in which an operation
+/// answered with an error had no effect and an operation that got no reply (the server stopped) may or may not
+/// have happened. In particular nothing acknowledged may be missing and nothing may be acknowledged as deleted
+/// while it is still there.
+fn io_fault_sessions(thorough: bool) -> (u64, Vec<Violation>) {
+    use crate::wire::Request;
+    use rayon::prelude::*;
+    use std::io::{Read, Write};
+    let progs: Vec<(&str, Files, Vec<Op>)> = vec![
+        ("put-get-delete-get-list on {f:c0}", init_tree(true), vec![put("f", Exp::HashOf(C0.to_vec()), X), Op::Get { path: "f".into() }, Op::Delete { path: "f".into(), expected: Exp::HashOf(X.to_vec()) }, Op::Get { path: "f".into() }, Op::List]),
+        ("put-new-dir, stale put, delete on {f:c0}", init_tree(true), vec![put("d/g", Exp::Absent, Z), put("f", Exp::HashOf(b"stale".to_vec()), Y), Op::Delete { path: "f".into(), expected: Exp::HashOf(C0.to_vec()) }, Op::List]),
+    ];
+    let errnos: Vec<i32> = if thorough { vec![13, 28, 5] } else { vec![13] };
+    let jobs: Vec<(usize, i32)> = (0..progs.len()).flat_map(|i| errnos.iter().map(move |e| (i, *e))).collect();
+    let res: Vec<(u64, Vec<Violation>)> = jobs
+        .par_iter()
+        .map(|&(pi, errno)| {
+            let (name, init, prog) = &progs[pi];
+            let mut runs = 0u64;
+            let mut out = Vec::new();
+            let session = |k: Option<u64>, runs: &mut u64| -> (Vec<OpRec>, Files, u64) {
+                *runs += 1;
+                let sc = Scratch::new("c03io");
+                let root = sc.path("hub");
+                let _ = std::fs::create_dir_all(&root);
+                for (p, b) in init {
+                    let _ = std::fs::write(root.join(p), b);
+                }
+                let logp = sc.path("log");
+                let mut input = crate::wire::MAGIC.to_vec();
+                input.extend(frame_of(&Request::Hello { version: 1 }));
+                let mut recs: Vec<OpRec> = Vec::new();
+                for (i, op) in prog.iter().enumerate() {
+                    let exp = |e: &Exp| match e {
+                        Exp::Absent => None,
+                        Exp::HashOf(b) => Some(h(b)),
+                        Exp::Raw(x) => *x,
+                        Exp::Listed => None,
+                    };
+                    let mut expected = None;
+                    match op {
+                        Op::List => input.extend(frame_of(&Request::List)),
+                        Op::Get { path } => input.extend(frame_of(&Request::Get { path: path.clone() })),
+                        Op::Delete { path, expected: e } => {
+                            expected = exp(e);
+                            input.extend(frame_of(&Request::Delete { path: path.clone(), expected }));
+                        }
+                        Op::Put { path, expected: e, content, .. } => {
+                            expected = exp(e);
+                            input.extend(frame_of(&Request::Put { path: path.clone(), expected, len: content.len() as u64, hash: h(content) }));
+                            input.extend_from_slice(content);
+                        }
+                    }
+                    recs.push(OpRec { client: 0, op: op.clone(), expected, inv: 2 * i, resp: None, reply: None });
+                }
+                let mut cmd = std::process::Command::new(cli_bin());
+                cmd.arg("serve").arg(&root).env("RUST_LOG", "off").env("LD_PRELOAD", crate::e3::SHIM).env("VSHIM_ROOT", &root).env("VSHIM_LOG", &logp).stdin(std::process::Stdio::piped()).stdout(std::process::Stdio::piped()).stderr(std::process::Stdio::null());
+                match k {
+                    Some(k) => {
+                        cmd.env("VSHIM_MODE", "inject").env("VSHIM_KILL_AT", u64::MAX.to_string()).env("VSHIM_FAIL_AT", k.to_string()).env("VSHIM_FAIL_ERRNO", errno.to_string());
+                    }
+                    None => {
+                        cmd.env("VSHIM_MODE", "log");
+                    }
+                }
+                let mut child = cmd.spawn().unwrap_or_else(|e| machinery_error(format!("spawn serve: {e}")));
+                let mut stdin = child.stdin.take();
+                let mut stdout = child.stdout.take();
+                let wr = std::thread::spawn(move || {
+                    if let Some(mut w) = stdin.take() {
+                        let _ = w.write_all(&input);
+                    }
+                });
+                let mut buf = Vec::new();
+                if let Some(o) = stdout.as_mut() {
+                    let _ = o.read_to_end(&mut buf);
+                }
+                let _ = wr.join();
+                let _ = child.wait();
+                let (rs, _) = parse_replies(&buf, 0);
+                let mut it = rs.into_iter();
+                let _hello = it.next();
+                for (i, r) in it.enumerate() {
+                    if let (Some(rec), Ok(rep)) = (recs.get_mut(i), r) {
+                        rec.resp = Some(2 * i + 1);
+                        rec.reply = Some(rep);
+                    }
+                }
+                let n = std::fs::read_to_string(&logp).map(|t| t.lines().count() as u64).unwrap_or(0);
+                (recs, snapshot_hub(&root), n)
+            };
+            let (recs0, tree0, n) = session(None, &mut runs);
+            if recs0.iter().any(|r| r.reply.is_none()) || !linearizable(init, &recs0, &tree0, false) {
+                return (runs, out); // no clean baseline on this tree: judged by the main exploration
+            }
+            for k in 1..=n {
+                let (recs, tree, _) = session(Some(k), &mut runs);
+                ERRORS_ARE_NOOPS.with(|f| f.set(true));
+                let ok = linearizable(init, &recs, &tree, false);
+                ERRORS_ARE_NOOPS.with(|f| f.set(false));
+                if !ok {
+                    let ops: Vec<String> = recs.iter().map(|o| format!("{} -> {}", op_label(&o.op), o.reply.as_ref().map_or("(no reply)".into(), reply_label))).collect();
+                    out.push(
+                        Violation::new("io_error_unexplainable", format!("[{name}] with the server's mutating libc call #{k} failing (errno {errno}): replies + final tree match no one-at-a-time execution (error replies = no effect, missing replies = maybe): {ops:?}; final tree {:?}", live(&tree).iter().map(|(p, b)| (p.clone(), String::from_utf8_lossy(b).into_owned())).collect::<Vec<_>>()), json!({"io_fault": {"program": name, "k": k, "errno": errno}}))
+                            .with("cause", json!("io_error")),
+                    );
+                    if out.len() >= 2 {
+                        break;
+                    }
+                }
+            }
+            (runs, out)
+        })
+        .collect();
+    (res.iter().map(|r| r.0).sum(), res.into_iter().flat_map(|r| r.1).collect())
+}
+
 /// Uploads whose size and byte values sit on the boundaries of the server's staging buffer (256 KiB): all-zero
 /// chunks (sparse-file shortcuts), exact multiples, one byte more; single server followed by Get and List.
 fn big_content_systems(thorough: bool) -> Vec<PairSpec> {
@@ -264,9 +382,16 @@ pub fn run(ctx: &Ctx, which: &str) -> ! {
     let mut violations: Vec<Violation> = Vec::new();
     let mut tot = Totals { schedules: 0, steps: 0, per_pair: Vec::new(), single_outcome_pairs: Vec::new(), states: BTreeSet::new(), sys_states: 0 };
     let mut sample: Option<Value> = None;
+    let mut io_runs = 0u64;
 
     if let Some(rp) = &ctx.replay {
         let v: Value = serde_json::from_slice(&std::fs::read(rp).unwrap_or_default()).unwrap_or(Value::Null);
+        if v["detail"]["io_fault"].is_object() {
+            let (runs, vs) = io_fault_sessions(true);
+            let mut rep = Report::new("model_checking");
+            rep.set("states", runs).set("transitions", runs).set("traces_validated_against_impl", runs).set("samples", json!([v["detail"]]));
+            finish(ctx, rep, vs);
+        }
         let name = v["detail"]["programs"].as_str().unwrap_or("").to_string();
         let sched: Vec<u8> = v["detail"]["history"]["schedule"].as_array().map(|a| a.iter().filter_map(|x| x.as_u64().map(|n| n as u8)).collect()).unwrap_or_default();
         let mut specs = pair_systems(&all_pairs(), &[false, true]);
@@ -346,6 +471,12 @@ pub fn run(ctx: &Ctx, which: &str) -> ! {
     for spec in &specs {
         run_spec(spec, bound, false, &mut tot, &mut violations, &mut sample);
     }
+    if which == "C03" {
+        let (runs, vs) = io_fault_sessions(thorough);
+        tot.schedules += runs;
+        violations.extend(vs);
+        io_runs = runs;
+    }
     // requests whose path names a directory of the hub
     for spec in dir_systems() {
         run_spec(&spec, if thorough { 2 } else { 1 }, false, &mut tot, &mut violations, &mut sample);
@@ -383,6 +514,7 @@ pub fn run(ctx: &Ctx, which: &str) -> ! {
         .set("distinct_outcomes", tot.states.len() as u64)
         .set("transitions", tot.steps)
         .set("schedules", tot.schedules)
+        .set("io_fault_sessions", io_runs)
         .set("traces_validated_against_impl", tot.schedules)
         .set("per_program_pair", Value::Array(tot.per_pair))
         .set("pairs_with_a_single_outcome", json!(tot.single_outcome_pairs))
